@@ -396,19 +396,20 @@ func compareAnchor(w *mc.World, m *model.State, wrk bool) []Disc {
 	{
 		ctx := w.Ctx()
 		type ent struct {
-			id    uint64
-			owner string
-			ident []string
-			reg   uint64
+			id             uint64
+			owner          string
+			ident          []string
+			reg            uint64
+			last, num, low uint64
 		}
 		var got []ent
 		if wrk {
 			for _, c := range w.App.WrkchainKeeper.GetAllWrkChains(ctx) {
-				got = append(got, ent{c.WrkchainId, c.Owner, []string{c.Moniker, c.Name, c.Genesis, c.Type}, c.RegTime})
+				got = append(got, ent{c.WrkchainId, c.Owner, []string{c.Moniker, c.Name, c.Genesis, c.Type}, c.RegTime, c.Lastblock, c.NumBlocks, c.LowestHeight})
 			}
 		} else {
 			for _, c := range w.App.BeaconKeeper.GetAllBeacons(ctx) {
-				got = append(got, ent{c.BeaconId, c.Owner, []string{c.Moniker, c.Name}, c.RegTime})
+				got = append(got, ent{c.BeaconId, c.Owner, []string{c.Moniker, c.Name}, c.RegTime, c.LastTimestampId, c.NumInState, c.FirstIdInState})
 			}
 		}
 		if len(got) != len(ids) {
@@ -421,6 +422,9 @@ func compareAnchor(w *mc.World, m *model.State, wrk bool) []Disc {
 			e := a.Ents[ids[i]]
 			if g.id != ids[i] || g.owner != BechOf(w, e.Owner) || strings.Join(g.ident, "\x00") != strings.Join(e.Ident, "\x00") || int64(g.reg) != e.RegTime {
 				add(disc("anch.identity", "%s registry entry %d: listed {id %d owner %s ident %q reg %d}, registered {id %d owner %s ident %q reg %d}", mod, i, g.id, NameOfBech(w, g.owner), g.ident, g.reg, ids[i], e.Owner, e.Ident, e.RegTime))
+			}
+			if g.last != e.Last || g.num != uint64(len(e.InState)) {
+				add(disc("anch.meta", "%s registry entry %d (id %d) counters: listed {last %d num %d}, model {last %d num %d}", mod, i, g.id, g.last, g.num, e.Last, len(e.InState)))
 			}
 		}
 	}
